@@ -2602,6 +2602,299 @@ const fn get_expiration_time(created: u64, ttl: u32, percent: u32) -> u64 {
     created + (ttl as u64 * percent as u64 * 10)
 }
 
+/// Verification-only access to private items of this module (feature `verif-hooks`).
+/// Contains no logic of its own beyond field copying.
+#[cfg(feature = "verif-hooks")]
+#[allow(dead_code)]
+pub(crate) mod verif_access {
+    use super::*;
+    use crate::verif_hooks::{PlainMsg, PlainOutgoing, PlainQuestion, PlainRData, PlainRecord};
+
+    pub(crate) fn plain_record(r: &dyn DnsRecordExt) -> PlainRecord {
+        let rec = r.get_record();
+        let any = r.any();
+        let mut if_index = 0;
+        let rdata = if let Some(a) = any.downcast_ref::<DnsAddress>() {
+            if_index = a.interface_id.index;
+            PlainRData::Addr(a.address)
+        } else if let Some(p) = any.downcast_ref::<DnsPointer>() {
+            PlainRData::Ptr(p.alias.clone())
+        } else if let Some(s) = any.downcast_ref::<DnsSrv>() {
+            PlainRData::Srv {
+                priority: s.priority,
+                weight: s.weight,
+                port: s.port,
+                host: s.host.clone(),
+            }
+        } else if let Some(t) = any.downcast_ref::<DnsTxt>() {
+            PlainRData::Txt(t.text.clone())
+        } else if let Some(h) = any.downcast_ref::<DnsHostInfo>() {
+            PlainRData::HInfo {
+                cpu: h.cpu.clone(),
+                os: h.os.clone(),
+            }
+        } else if let Some(n) = any.downcast_ref::<DnsNSec>() {
+            PlainRData::NSec {
+                next: n.next_domain.clone(),
+                bitmap: n.type_bitmap.clone(),
+            }
+        } else {
+            PlainRData::Other
+        };
+        PlainRecord {
+            name: rec.entry.name.clone(),
+            new_name: rec.new_name.clone(),
+            ty: rec.entry.ty as u16,
+            class: rec.entry.class,
+            flush: rec.entry.cache_flush,
+            ttl: rec.ttl,
+            created: rec.created,
+            expires: rec.expires,
+            refresh: rec.refresh,
+            if_index,
+            rdata,
+        }
+    }
+
+    /// Builds a real record object. `created`/`expires`/`refresh` are derived by the real
+    /// constructor from the (virtual) clock, which is set to `p.created` for the call.
+    pub(crate) fn build_record(p: &PlainRecord) -> Option<DnsRecordBox> {
+        let ty = RRType::from_u16(p.ty)?;
+        let class = if p.flush {
+            p.class | CLASS_CACHE_FLUSH
+        } else {
+            p.class
+        };
+        let saved = crate::verif_hooks::virtual_now();
+        crate::verif_hooks::set_virtual_now(Some(p.created));
+        let mut b: DnsRecordBox = match &p.rdata {
+            PlainRData::Addr(ip) => DnsAddress::new(
+                &p.name,
+                ty,
+                class,
+                p.ttl,
+                *ip,
+                InterfaceId {
+                    name: format!("if{}", p.if_index),
+                    index: p.if_index,
+                },
+            )
+            .boxed(),
+            PlainRData::Ptr(alias) => {
+                DnsPointer::new(&p.name, ty, class, p.ttl, alias.clone()).boxed()
+            }
+            PlainRData::Srv {
+                priority,
+                weight,
+                port,
+                host,
+            } => DnsSrv::new(&p.name, class, p.ttl, *priority, *weight, *port, host.clone())
+                .boxed(),
+            PlainRData::Txt(t) => DnsTxt::new(&p.name, class, p.ttl, t.clone()).boxed(),
+            PlainRData::HInfo { cpu, os } => {
+                DnsHostInfo::new(&p.name, ty, class, p.ttl, cpu.clone(), os.clone()).boxed()
+            }
+            PlainRData::NSec { next, bitmap } => {
+                DnsNSec::new(&p.name, class, p.ttl, next.clone(), bitmap.clone()).boxed()
+            }
+            PlainRData::Other => {
+                crate::verif_hooks::set_virtual_now(saved);
+                return None;
+            }
+        };
+        crate::verif_hooks::set_virtual_now(saved);
+        if let Some(n) = &p.new_name {
+            b.get_record_mut().set_new_name(n.clone());
+        }
+        Some(b)
+    }
+
+    pub(crate) fn decode(data: Vec<u8>, if_index: u32) -> Result<PlainMsg> {
+        let msg = DnsIncoming::new(
+            data,
+            InterfaceId {
+                name: format!("if{if_index}"),
+                index: if_index,
+            },
+        )?;
+        Ok(plain_msg(&msg))
+    }
+
+    pub(crate) fn plain_msg(msg: &DnsIncoming) -> PlainMsg {
+        PlainMsg {
+            id: msg.id,
+            flags: msg.flags,
+            num_questions: msg.num_questions,
+            num_answers: msg.num_answers,
+            num_authorities: msg.num_authorities,
+            num_additionals: msg.num_additionals,
+            questions: msg
+                .questions
+                .iter()
+                .map(|q| PlainQuestion {
+                    name: q.entry.name.clone(),
+                    ty: q.entry.ty as u16,
+                    class: q.entry.class,
+                    flush: q.entry.cache_flush,
+                })
+                .collect(),
+            answers: msg.answers.iter().map(|r| plain_record(r.as_ref())).collect(),
+            authorities: msg
+                .authorities
+                .iter()
+                .map(|r| plain_record(r.as_ref()))
+                .collect(),
+            additionals: msg
+                .additional
+                .iter()
+                .map(|r| plain_record(r.as_ref()))
+                .collect(),
+        }
+    }
+
+    pub(crate) fn build_outgoing(o: &PlainOutgoing) -> Option<DnsOutgoing> {
+        let mut out = DnsOutgoing::new(o.flags);
+        out.id = o.id;
+        out.multicast = o.multicast;
+        for (name, ty) in o.questions.iter() {
+            out.add_question(name, RRType::from_u16(*ty)?);
+        }
+        for (r, now) in o.answers.iter() {
+            out.answers.push((build_record(r)?, *now));
+        }
+        for r in o.authorities.iter() {
+            out.add_authority(build_record(r)?);
+        }
+        for r in o.additionals.iter() {
+            out.additionals.push(build_record(r)?);
+        }
+        Some(out)
+    }
+
+    pub(crate) fn plain_outgoing(out: &DnsOutgoing) -> PlainOutgoing {
+        PlainOutgoing {
+            flags: out.flags,
+            id: out.id,
+            multicast: out.multicast,
+            questions: out
+                .questions
+                .iter()
+                .map(|q| (q.entry.name.clone(), q.entry.ty as u16))
+                .collect(),
+            answers: out
+                .answers
+                .iter()
+                .map(|(r, t)| (plain_record(r.as_ref()), *t))
+                .collect(),
+            authorities: out
+                .authorities
+                .iter()
+                .map(|r| plain_record(r.as_ref()))
+                .collect(),
+            additionals: out
+                .additionals
+                .iter()
+                .map(|r| plain_record(r.as_ref()))
+                .collect(),
+        }
+    }
+
+    /// Packets plus, per packet, the compression table (name -> offset).
+    pub(crate) fn encode(o: &PlainOutgoing) -> Option<Vec<(Vec<u8>, Vec<(String, u16)>)>> {
+        let out = build_outgoing(o)?;
+        Some(
+            out.to_packets()
+                .into_iter()
+                .map(|p| {
+                    let mut names: Vec<(String, u16)> = p.names.into_iter().collect();
+                    names.sort();
+                    (p.data, names)
+                })
+                .collect(),
+        )
+    }
+
+    pub(crate) fn parse_escaped_name(name: &str) -> Vec<String> {
+        DnsOutPacket::parse_escaped_name(name)
+    }
+
+    pub(crate) fn expiration_time(created: u64, ttl: u32, percent: u32) -> u64 {
+        get_expiration_time(created, ttl, percent)
+    }
+
+    /// Applies a sequence of lifetime methods to a real record; returns the observed values.
+    /// ops: ("is_expired"|"expires_soon"|"refresh_due"|"halflife_passed"|"refresh_maybe"|
+    ///       "refresh_no_more"|"remaining_ttl"|"update_ttl"|"set_expire"|"set_expire_sooner"|
+    ///       "reset_ttl"|"snapshot", arg, arg2)
+    pub(crate) fn life_ops(p: &PlainRecord, ops: &[(String, u64, u64)]) -> Option<Vec<String>> {
+        let mut b = build_record(p)?;
+        let mut outv = Vec::new();
+        for (op, a, a2) in ops.iter() {
+            let s = match op.as_str() {
+                "is_expired" => format!("{}", b.get_record().is_expired(*a)),
+                "expires_soon" => format!("{}", b.get_record().expires_soon(*a)),
+                "refresh_due" => format!("{}", b.get_record().refresh_due(*a)),
+                "halflife_passed" => format!("{}", b.get_record().halflife_passed(*a)),
+                "refresh_maybe" => format!("{}", b.get_record_mut().refresh_maybe(*a)),
+                "updated_refresh_time" => match b.updated_refresh_time(*a) {
+                    Some(t) => format!("some {t}"),
+                    None => "none".to_string(),
+                },
+                "refresh_no_more" => {
+                    b.get_record_mut().refresh_no_more();
+                    "unit".to_string()
+                }
+                "remaining_ttl" => format!("{}", b.get_record().get_remaining_ttl(*a)),
+                "update_ttl" => {
+                    b.get_record_mut().update_ttl(*a);
+                    "unit".to_string()
+                }
+                "set_expire" => {
+                    b.set_expire(*a);
+                    "unit".to_string()
+                }
+                "set_expire_sooner" => {
+                    b.set_expire_sooner(*a);
+                    "unit".to_string()
+                }
+                "reset_ttl" => {
+                    // other record: ttl = a (as u32), created = a2
+                    let mut q = p.clone();
+                    q.ttl = *a as u32;
+                    q.created = *a2;
+                    let other = build_record(&q)?;
+                    b.reset_ttl(other.as_ref());
+                    "unit".to_string()
+                }
+                "snapshot" => {
+                    let r = b.get_record();
+                    format!("{} {} {} {}", r.ttl, r.created, r.expires, r.refresh)
+                }
+                _ => return None,
+            };
+            outv.push(s);
+        }
+        Some(outv)
+    }
+
+    /// Binary relations between two real records.
+    pub(crate) fn rel(a: &PlainRecord, b: &PlainRecord) -> Option<(bool, bool, i8, bool)> {
+        let ra = build_record(a)?;
+        let rb = build_record(b)?;
+        let c = match ra.compare(rb.as_ref()) {
+            cmp::Ordering::Less => -1,
+            cmp::Ordering::Equal => 0,
+            cmp::Ordering::Greater => 1,
+        };
+        Some((
+            ra.matches(rb.as_ref()),
+            ra.rrdata_match(rb.as_ref()),
+            c,
+            ra.suppressed_by_answer(rb.as_ref()),
+        ))
+    }
+}
+
 #[cfg(test)]
 mod tests {
     use super::{
